@@ -10,7 +10,7 @@ RULE = ("linear and radial gradients (coordinates as numbers or percentages, bot
         "document with a gradient-painted sample point")
 ASSUMPTIONS = [
     "with bounding-box units the shape's geometry must not be altered by clipping or stroking (the property's scope): the "
-    "generator uses neither here",
+    "generator uses neither with bounding-box units; user-space gradients are also used as stroke paints",
     "gradient parameters are rounded to 6 decimals by the code; the judge's tolerance (0.02 per channel) absorbs it",
 ]
 TRUSTED = ["harness/render.py gradient evaluator (SVG 1.1 §13.2)", "harness/pipeline.py (tie)"]
@@ -26,9 +26,33 @@ def nontrivial(src, out):
     return "Gradient" in out
 
 
+def special_stroke(rng):
+    """a gradient as the stroke paint of a shape under a transform chain: the outline that replaces the stroke is filled
+    with it, so it has to be carried into the outline's coordinate system like a fill gradient"""
+    if rng.random() < 0.7:
+        g = '<linearGradient id="g" gradientUnits="userSpaceOnUse" x1="%d" y1="%d" x2="%d" y2="%d">' % (rng.randint(0, 10), rng.randint(0, 10), rng.randint(25, 40), rng.randint(0, 30))
+        tag = "linearGradient"
+    else:
+        g = '<radialGradient id="g" gradientUnits="userSpaceOnUse" cx="%d" cy="%d" r="%d">' % (rng.randint(10, 25), rng.randint(10, 25), rng.randint(15, 30))
+        tag = "radialGradient"
+    stops = '<stop offset="0" stop-color="red"/><stop offset="0.5" stop-color="blue"/><stop offset="1" stop-color="lime"/>'
+    tr = rng.choice(["translate(40 30)", "translate(30 45) scale(1.5)", "translate(60 20) rotate(40)", "matrix(1 0 0 2 35 10)", "scale(2)"])
+    fill = rng.choice(["none", "none", "#ff0", "url(#g)"])
+    shape = rng.choice(['<path d="M5,8 L35,8 L35,30" fill="%s" stroke="url(#g)" stroke-width="%d"/>',
+                        '<rect x="4" y="5" width="30" height="22" fill="%s" stroke="url(#g)" stroke-width="%d"/>',
+                        '<circle cx="18" cy="18" r="13" fill="%s" stroke="url(#g)" stroke-width="%d"/>']) % (fill, rng.choice([6, 8, 10]))
+    wrap = rng.choice(['<g transform="%s">%s</g>', '<g transform="%s"><g>%s</g></g>']) % (tr, shape)
+    if rng.random() < 0.3:
+        wrap = shape.replace("/>", ' transform="%s"/>' % tr)
+    return '<svg xmlns="http://www.w3.org/2000/svg" viewBox="0 0 160 140"><defs>%s%s</%s></defs>%s</svg>' % (g, stops, tag, wrap)
+
+
 def special(rng):
     """user-space gradients whose coordinates are percentages of a non-square viewport"""
-    if rng.random() > 0.12:
+    k = rng.random()
+    if k < 0.1:
+        return special_stroke(rng)
+    if k > 0.22:
         return None
     w, h = rng.choice([(120, 80), (90, 140), (200, 100)])
     def pc(lo, hi):
